@@ -42,7 +42,12 @@ int main()
       {
         double range = 0.5 + 0.25 * rng.range(1, 30);
         double param = 1.;
-        if (hasParam) { double pm = parMax > 0 ? parMax : 3.; param = std::min(pm, 0.25 * rng.range(1, 8)); if (type == ECov::MATERN || type == ECov::BESSELJ || type == ECov::GAMMA || type == ECov::CAUCHY || type == ECov::COSEXP) param = 0.25 * rng.range(1, 8); }
+        if (hasParam) { double pm = parMax > 0 ? parMax : 3.; param = std::min(pm, 0.25 * rng.range(1, 8)); if (type == ECov::MATERN || type == ECov::BESSELJ || type == ECov::GAMMA || type == ECov::CAUCHY || type == ECov::COSEXP) param = 0.25 * rng.range(1, 8);
+                        // the usual parameter values (closed forms exist in the model): Matern 1/2, 3/2, 5/2; stable 1, 2; gamma / Cauchy 1, 2, 3
+                        // the first repetitions go through the usual values systematically
+                        if (type == ECov::MATERN) { if (rep < 3) param = 0.5 + (double)rep; else if (rng.coin(0.3)) param = 0.5 + (double)rng.range(0, 2); else param = 0.25 * rng.range(1, 12); }
+                        if (type == ECov::STABLE) { if (rep < 2) param = 1. + (double)rep; }
+                        if (type == ECov::GAMMA || type == ECov::CAUCHY) { if (rep < 3) param = 1. + (double)rep; } }
         // ---- isotropic, unit sill: closed form along the first axis
         {
           Model* m = Model::createFromParam(type, range, 1., param);
@@ -55,7 +60,7 @@ int main()
               VectorDouble a(ndim, 0.), b(ndim, 0.); b[0] = dx;
               SpacePoint p1(a), p2(b);
               double c = (dx == 0.) ? m->eval0(0, 0) : m->eval(p1, p2, 0, 0);
-              if (minOrder < 0) { printf("s corr %s %s %s %s %s =>\n", tname.c_str(), dy(dx).c_str(), dy(hasRange > 0 ? range : 1.).c_str(), dy(scadef).c_str(), dy(c).c_str()); st.hit("closed_form_" + tname); }
+              if (minOrder < 0) { printf("s corr %s %s %s %s %s =>\n", (hasParam ? tname + "@" + dy(param) : tname).c_str(), dy(dx).c_str(), dy(hasRange > 0 ? range : 1.).c_str(), dy(scadef).c_str(), dy(c).c_str()); st.hit("closed_form_" + tname); }
             }
             delete m;
           }
